@@ -567,6 +567,14 @@ fn slices(mode: Mode, thorough: bool) -> Vec<Slice> {
             forces: both.clone(), drops: both.clone(), setchunks: vec![], init_chunk: None,
         });
     }
+    if mode != Mode::C08 {
+        // chunks far larger than the exhaustive slices use (buffering thresholds such as 4 KiB / 64 KiB)
+        v.push(Slice {
+            name: "large-chunks/video/multi-chunk-messages",
+            types: vec![9], msids: vec![1], tss: vec![0, 40], lens: if thorough && mode != Mode::C07 || c07_extra { vec![0, 4_097, 12_000, 150_000] } else { vec![0, 12_000] },
+            forces: vec![false], drops: vec![false], setchunks: if thorough && mode != Mode::C07 || c07_extra { vec![4_097, 5_000, 70_000] } else { vec![4_097, 5_000] }, init_chunk: None,
+        });
+    }
     if c07_extra {
         v.push(Slice {
             name: "five-chunk-streams/one-type-each/chunk-size-2",
